@@ -25,6 +25,11 @@ CONSTANTS
   GlClasses <- Anything
   FeeClasses <- Anything
   AlClasses <- Anything
+  FrameKinds <- AllFrameKinds
+  CallTargets <- Anything
+  TxTargets <- Anything
+  Benefs <- Anything
+  WpOps <- Anything
   MaxDepth = 1000
   MaxFrameOps = 1000000
   MaxTx = 1000000
